@@ -2,6 +2,8 @@
 Property C09 — annotate accumulates information and never drops any.
 -/
 import ReuseVerif.Lemmas.History
+import ReuseVerif.Lemmas.C09Step
+import ReuseVerif.Lemmas.C09LineEndings
 import ReuseVerif.Theorems.C07
 import ReuseVerif.Theorems.C20
 
@@ -106,6 +108,158 @@ theorem C09_history_partial {norm : Text → Text} (t : Text) (ops : List Op) (h
       have hst : stepText t o = t := by unfold stepText; rw [hw]
       rw [hst] at ih ⊢
       simpa using ih
+
+/-! ### the whole file, without `headerHolds` / `tagsCompose` -/
+
+/-- **Table obligation** (re-opened whenever the END expression changes): the generated END expression can read a line
+    feed only inside the white space that follows `"`, `'` or `]` — so the tag reader, run on a text that does not end
+    (white space aside) with one of these, never looks beyond that text (`C09L.matchEnd_local`, `C09L.findAll_local`). -/
+theorem C09_end_guarded : EndGuarded Generated.endRe := C09L.endRe_guarded
+
+/-- **One step, the whole file.**  A successful invocation whose hypotheses hold (`Spec.stepGoodFull`: "\n" the only
+    line boundary of the old text, no `--merge-copyrights`, not the `.license` pseudo style when replacing, no
+    `REUSE-IgnoreStart` in the old and in the new text, and the *seam* — `Spec.seamOK`: the last line above the header
+    has no trailing white space; that line, the last line of the old block and the last line of the new block do not end
+    with `"`, `'`, `]`): the new text declares **everything the old text declared, wherever in the text it stood,** and
+    everything requested — copyright notices verbatim, licence expressions as the parser normalises them; for any
+    template (`o.c.render` arbitrary), style, line mode, `--no-replace`.
+    Information outside the replaced block survives because `place_header` keeps the text above and below (only white
+    space next to the header changes) and the readers work piece by piece: copyright notices per `splitlines()` line, tags
+    per physical line with END proved unable to run across a line end that is not behind a quote character. -/
+theorem C09_step {norm : Text → Text} {o : Op} {t t' : Text}
+    (hw : annotateText o.c o.replace o.skipExisting o.info t = .written t') (hg : stepGoodFull norm o t) :
+    Declares norm (extractRaw t') ((extractRaw t).cpr ++ o.info.cpr) ((extractRaw t).lic ++ o.info.lic) :=
+  C09L.step_declares hw hg
+
+/-- **One step, contributors**, under any template that renders them (`Spec.rendersCon`: the new header block reads back
+    the contributors the template was handed — by `C09_contributors_handed` the requested ones and those of the old
+    block): every contributor of the old text, wherever it stood, and every requested one is a contributor of the new text. -/
+theorem C09_step_contributors {norm : Text → Text} {o : Op} {t t' : Text}
+    (hw : annotateText o.c o.replace o.skipExisting o.info t = .written t') (hg : stepGoodFull norm o t)
+    (hren : rendersCon o t = true) :
+    ∀ x, x ∈ (extractRaw t).con ∨ x ∈ o.info.con → x ∈ (extractRaw t').con :=
+  C09L.step_contributors hw hg hren
+
+/-- **History, the whole file.**  By induction over any finite list of invocations: if every successful step is good at
+    the text it is applied to (`Spec.GoodRunFull`; failed and skipped steps change nothing and need no hypothesis), the
+    final text declares everything the initial text declared — anywhere in it — and everything requested by every
+    successful step. -/
+theorem C09_history {norm : Text → Text} (t : Text) (ops : List Op) (hg : GoodRunFull norm t ops) :
+    Declares norm (extractRaw (run t ops))
+      ((extractRaw t).cpr ++ (accumulated t ops).1) ((extractRaw t).lic ++ (accumulated t ops).2) := by
+  induction hg with
+  | nil t => simpa [run, accumulated] using declares_self norm (extractRaw t)
+  | cons t o os hstep _ ih =>
+    rw [run_cons]
+    unfold accumulated
+    cases hw : annotateText o.c o.replace o.skipExisting o.info t with
+    | written t' =>
+      have hst : stepText t o = t' := by unfold stepText; rw [hw]
+      rw [hst] at ih ⊢
+      simp only
+      have hs := C09_step hw hstep
+      have ih1 : Declares norm (extractRaw (run t' os)) (extractRaw t').cpr (extractRaw t').lic :=
+        ⟨fun x hx => ih.1 x (List.mem_append_left _ hx), fun x hx => ih.2 x (List.mem_append_left _ hx)⟩
+      have ih2 : Declares norm (extractRaw (run t' os)) (accumulated t' os).1 (accumulated t' os).2 :=
+        ⟨fun x hx => ih.1 x (List.mem_append_right _ hx), fun x hx => ih.2 x (List.mem_append_right _ hx)⟩
+      have h3 := declares_trans ih1 hs
+      refine ⟨fun x hx => ?_, fun x hx => ?_⟩
+      · rcases List.mem_append.mp hx with h | h
+        · exact h3.1 x (List.mem_append_left _ h)
+        · rcases List.mem_append.mp h with h | h
+          · exact h3.1 x (List.mem_append_right _ h)
+          · exact ih2.1 x h
+      · rcases List.mem_append.mp hx with h | h
+        · exact h3.2 x (List.mem_append_left _ h)
+        · rcases List.mem_append.mp h with h | h
+          · exact h3.2 x (List.mem_append_right _ h)
+          · exact ih2.2 x h
+    | skipped =>
+      have hst : stepText t o = t := by unfold stepText; rw [hw]
+      rw [hst] at ih ⊢
+      simpa using ih
+    | failed e =>
+      have hst : stepText t o = t := by unfold stepText; rw [hw]
+      rw [hst] at ih ⊢
+      simpa using ih
+
+/-- **History, contributors.**  When moreover the template of every successful step renders the contributors it is handed
+    (`Spec.GoodRunCon`), the final text names every contributor the initial text named and every contributor requested by
+    a successful step. -/
+theorem C09_history_contributors {norm : Text → Text} (t : Text) (ops : List Op) (hg : GoodRunCon norm t ops) :
+    ∀ x, x ∈ (extractRaw t).con ∨ x ∈ accumulatedCon t ops → x ∈ (extractRaw (run t ops)).con := by
+  induction hg with
+  | nil t =>
+    intro x hx
+    rcases hx with h | h
+    · exact h
+    · cases h
+  | cons t o os hstep hren _ ih =>
+    intro x hx
+    rw [run_cons]
+    unfold accumulatedCon at hx
+    cases hw : annotateText o.c o.replace o.skipExisting o.info t with
+    | written t' =>
+      have hst : stepText t o = t' := by unfold stepText; rw [hw]
+      rw [hst] at ih ⊢
+      rw [hw] at hx
+      simp only [List.mem_append] at hx
+      have hs := C09_step_contributors hw hstep (hren ⟨t', hw⟩)
+      rcases hx with h | h | h
+      · exact ih x (.inl (hs x (.inl h)))
+      · exact ih x (.inl (hs x (.inr h)))
+      · exact ih x (.inr h)
+    | skipped =>
+      have hst : stepText t o = t := by unfold stepText; rw [hw]
+      rw [hst] at ih ⊢
+      rw [hw] at hx
+      exact ih x hx
+    | failed e =>
+      have hst : stepText t o = t := by unfold stepText; rw [hw]
+      rw [hst] at ih ⊢
+      rw [hw] at hx
+      exact ih x hx
+
+/-! ### CRLF and CR files -/
+
+/-- **One step on a CRLF file.**  The file holds the CRLF form `toCRLF u` of an LF text `u` (no carriage return in `u`, at
+    least one line end).  What is written is the CRLF form of what the same invocation writes for `u` (C08), lint's decoder
+    folds both files back to the LF texts (`foldLineEndings`), and for those `C09_step` holds: the file after the step
+    declares everything the file before declared and everything requested.  (`NoCR t'`: the template wrote no carriage
+    return of its own.) -/
+theorem C09_step_crlf {norm : Text → Text} {o : Op} {u T : Text} (hcr : NoCR u) (hlf : '\n' ∈ u)
+    (hw : annotateText o.c o.replace o.skipExisting o.info (toCRLF u) = .written T)
+    (hg : stepGoodFull norm { o with skipExisting := false } u) :
+    ∃ t', annotateText o.c o.replace false o.info u = .written t' ∧ T = toCRLF t' ∧
+      (NoCR t' → foldLineEndings T = t' ∧ foldLineEndings (toCRLF u) = u ∧
+        Declares norm (extractRaw (foldLineEndings T))
+          ((extractRaw (foldLineEndings (toCRLF u))).cpr ++ o.info.cpr)
+          ((extractRaw (foldLineEndings (toCRLF u))).lic ++ o.info.lic)) := by
+  have hw' := C09L.written_noskip hw
+  rw [C08.C08_line_endings_crlf o.c o.replace o.info u hcr hlf] at hw'
+  obtain ⟨t', ha, hT⟩ := C09L.mapWritten_written hw'
+  refine ⟨t', ha, hT, fun hcr' => ?_⟩
+  rw [hT, C09L.fold_crlf hcr', C09L.fold_crlf hcr]
+  exact ⟨rfl, rfl, C09_step (o := { o with skipExisting := false }) ha hg⟩
+
+/-- **One step on a CR file** (classic Mac line ends): the same through `toCR`. -/
+theorem C09_step_cr {norm : Text → Text} {o : Op} {u T : Text} (hcr : NoCR u) (hlf : '\n' ∈ u)
+    (hw : annotateText o.c o.replace o.skipExisting o.info (toCR u) = .written T)
+    (hg : stepGoodFull norm { o with skipExisting := false } u) :
+    ∃ t', annotateText o.c o.replace false o.info u = .written t' ∧ T = toCR t' ∧
+      (NoCR t' → foldLineEndings T = t' ∧ foldLineEndings (toCR u) = u ∧
+        Declares norm (extractRaw (foldLineEndings T))
+          ((extractRaw (foldLineEndings (toCR u))).cpr ++ o.info.cpr)
+          ((extractRaw (foldLineEndings (toCR u))).lic ++ o.info.lic)) := by
+  have hw' := C09L.written_noskip hw
+  rw [C08.C08_line_endings_cr o.c o.replace o.info u hcr hlf] at hw'
+  obtain ⟨t', ha, hT⟩ := C09L.mapWritten_written hw'
+  refine ⟨t', ha, hT, fun hcr' => ?_⟩
+  rw [hT, C09L.fold_cr hcr', C09L.fold_cr hcr]
+  exact ⟨rfl, rfl, C09_step (o := { o with skipExisting := false }) ha hg⟩
+
+/-- an LF file is read as it is -/
+theorem C09_fold_lf {u : Text} (hcr : NoCR u) : foldLineEndings u = u := C09L.fold_lf hcr
 
 /-- **--skip-existing.**  When the file already contains REUSE information the short-circuit
     writes nothing: the text (hence everything it declares) is unchanged. -/
